@@ -86,6 +86,158 @@ VALUE_POOL = {
 }
 
 
+# ---------------------------------------------------------------------------------------------------------
+# the working directory.  supervisord reads its file for the first time from the directory it was launched in and,
+# once daemonize() has done os.chdir([supervisord] directory=), every later time from there.  Every case parses the
+# old file (and the monitors' independent reference parse of the new one) in LAUNCH and lets the daemon reread in RUN;
+# both hold the same relative sub-directories, so that a relative log file name is acceptable in either.
+# ---------------------------------------------------------------------------------------------------------
+REL_DIRS = ['logs', 'rel', 'run.d']
+
+
+def cwd_dirs(scratch):
+    out = []
+    for n in ('cwd_launch', 'cwd_run'):
+        d = os.path.join(scratch, n)
+        for s in REL_DIRS:
+            os.makedirs(os.path.join(d, s), exist_ok=True)
+        out.append(d)
+    return out
+
+
+class at_cwd:
+    """chdir for the duration of one real parse only (the model driver and the worker threads never see it)"""
+    def __init__(self, d):
+        self.d = d
+    def __enter__(self):
+        self.saved = os.getcwd()
+        if self.d:
+            os.chdir(self.d)
+    def __exit__(self, *a):
+        os.chdir(self.saved)
+
+
+def model_dirs(scratch):
+    """the directories the model is told exist: absolute ones, and the relative ones both working directories hold
+    (as the generators spell them)"""
+    return L.known_dirs([scratch]) + list(REL_DIRS) + ['.', './logs', 'logs/..', './run.d', 'rel/..']
+
+
+# ---------------------------------------------------------------------------------------------------------
+# file versions that are not a list of sections: [('__raw__', [('text', ...)])] is written byte for byte,
+# [('__raw__', [('hex', ...)])] likewise (bytes), [('__raw__', [('deleted', '1')])] removes the file
+# ---------------------------------------------------------------------------------------------------------
+def is_raw(secs):
+    return bool(secs) and secs[0][0] == '__raw__'
+
+
+def write_version(secs, scratch, tag, include=()):
+    if not is_raw(secs):
+        return L.write_config({'sections': secs, 'include': list(include)}, scratch, tag)
+    path = os.path.join(scratch, 'sv_%s.conf' % tag)
+    d = dict(secs[0][1])
+    if 'deleted' in d:
+        if os.path.exists(path):
+            os.unlink(path)
+    elif 'hex' in d:
+        with open(path, 'wb') as f:
+            f.write(bytes.fromhex(d['hex']))
+    else:
+        with open(path, 'w', encoding='utf-8') as f:
+            f.write(d['text'])
+    return path
+
+
+# ---------------------------------------------------------------------------------------------------------
+# files that cannot be parsed, EVERY class of them:
+#   (1) config_l1.corruptions: malformed value of every typed option, malformed expansions in every expanded option,
+#       cross-option constraints, names, environment, events, sockets, [supervisord] values (labels with must_reject);
+#   (2) %-expressions that CPython rejects with a TypeError rather than a ValueError / KeyError (the unescaped strftime
+#       percent of `command=/bin/date +%d`, a numeric conversion of a string expansion ...), in every option of every
+#       section kind -- every option value is passed through expand();
+#   (3) breakage below the option level: no section header, a line that is no option, an unterminated header, a leading
+#       continuation line, an empty file, no file, bytes that are not UTF-8, an [include] section without files=.
+# Whether a version really is unparsable is decided by the monitors' independent parse, never by the label.
+# ---------------------------------------------------------------------------------------------------------
+TYPEERROR_UNKEYED = ['%d', '%i', '%x', '%X', '%o', '%e', '%E', '%f', '%g', '%c', '%5d', '%-3x', '%03d', '%.2f', '%*d']
+TYPEERROR_KEYED = ['%(here)d', '%(here)x', '%(here)c', '%(host_node_name)i', '%(ENV_VERIF_A)d', '%(ENV_VERIF_A)f', '%(ENV_VERIF_N)d', '%(ENV_VERIF_B)e']
+TYPEERROR_KEYED_PROGRAM = ['%(program_name)d', '%(group_name)i', '%(program_name)e', '%(group_name)x', '%(program_name)c']
+STRFTIME = ['/bin/date +%d', 'sh -c "date +%e"', '/usr/bin/logger -t %c', 'date +%d.%m.%Y', '/bin/date "+%x"', 'backup --stamp=%d-%H%M', 'run --at %I:%M']
+VALUEERROR_FORMATS = ['%H:%M', '%Y', '%', 'x%(here', '%(here)', '%(here)z', '%(nosuch)s', '%(ENV_NOSUCH)s']
+SECTION_OPTS = {
+    'program': ['command', 'directory', 'stdout_logfile', 'stderr_logfile', 'process_name', 'environment', 'priority', 'startsecs', 'user', 'umask',
+                'serverurl', 'stopsignal', 'exitcodes', 'autostart', 'autorestart', 'numprocs', 'stdout_logfile_maxbytes', 'stderr_logfile_backups'],
+    'group': ['programs', 'priority'],
+    'supervisord': ['environment', 'identifier', 'directory', 'childlogdir', 'logfile', 'pidfile', 'minfds', 'umask', 'user', 'nodaemon', 'loglevel',
+                    'logfile_maxbytes', 'logfile_backups', 'nocleanup', 'strip_ansi'],
+}
+SECTION_OPTS['eventlistener'] = SECTION_OPTS['program'] + ['events', 'buffer_size', 'result_handler']
+SECTION_OPTS['fcgi-program'] = SECTION_OPTS['program'] + ['socket', 'socket_owner', 'socket_mode', 'socket_backlog']
+
+
+def format_corruptions(rng, secs, everything):
+    """[(label, sections)]: one option of one section holds a %-expression that `value % expansions` rejects"""
+    out = []
+    for si, (sname, opts) in enumerate(secs):
+        kind = sname.split(':')[0]
+        if kind not in SECTION_OPTS:
+            continue
+        d = dict(opts)
+        cand = list(dict.fromkeys([k for k, _ in opts] + SECTION_OPTS[kind]))
+        for k in (cand if everything else rng_pick(rng, cand, 3)):
+            keyed = TYPEERROR_KEYED + (TYPEERROR_KEYED_PROGRAM if kind in ('program', 'eventlistener', 'fcgi-program') else [])
+            fams = [('typeerror-unkeyed', TYPEERROR_UNKEYED), ('typeerror-keyed', keyed), ('valueerror', VALUEERROR_FORMATS)]
+            if k == 'command':
+                fams.append(('typeerror-strftime', STRFTIME))
+            for fam, pool in (fams if everything else [rng.choice(fams[:2] + fams)]):
+                bad = rng.choice(pool)
+                cur = d.get(k)
+                if fam == 'typeerror-strftime':
+                    val = bad
+                elif k == 'environment':
+                    val = rng.choice(['E="%s"' % bad, 'E=%s' % bad, (cur + ',' if cur else '') + 'STAMP="%s"' % bad])
+                elif cur and rng.random() < 0.6:
+                    val = rng.choice([cur + ' ' + bad, cur + bad, bad + cur])
+                else:
+                    val = bad
+                s2 = list(secs); s2[si] = (sname, [(a, b) for a, b in opts if a != k] + [(k, val)])
+                out.append(('unparsable/format-%s:%s.%s=%r' % (fam, kind, k, val), s2))
+    if everything or rng.random() < 0.3:
+        bad = rng.choice(TYPEERROR_UNKEYED + TYPEERROR_KEYED + VALUEERROR_FORMATS)
+        out.append(('unparsable/format-include:files=%r' % bad, secs + [('include', [('files', bad + '/*.conf')])]))
+    return out
+
+
+def syntax_corruptions(rng, secs):
+    """[(label, raw version)]: breakage below the option level"""
+    text = L.render(secs)
+    lines = text.split('\n')
+    heads = [i for i, l in enumerate(lines) if l.startswith('[')]
+    out = []
+    def raw(label, t):
+        out.append(('unparsable/syntax-' + label, [('__raw__', [('text', t)])]))
+    raw('no-section-header', 'command=/bin/stray\n' + text)
+    i = rng.randrange(1, len(lines))
+    raw('line-is-no-option', '\n'.join(lines[:i] + [rng.choice(['this is not an option line', '/bin/cat', '[[', ']'])] + lines[i:]))
+    if heads:
+        h = rng.choice(heads)
+        raw('unterminated-header', '\n'.join(lines[:h] + [lines[h].rstrip(']')] + lines[h + 1:]))
+    raw('leading-continuation', '   continued\n' + text)
+    raw('empty-file', rng.choice(['', '\n\n', '; nothing but a comment\n']))
+    raw('include-without-files', text + '\n[include]\n')
+    out.append(('unparsable/syntax-file-deleted', [('__raw__', [('deleted', '1')])]))
+    out.append(('unparsable/syntax-not-utf8', [('__raw__', [('hex', (b'\xff\xfe' + text.encode('utf-8')).hex())])]))
+    out.append(('unparsable/syntax-not-utf8', [('__raw__', [('hex', text.replace('command=', 'command=café ', 1).encode('latin-1', 'replace').hex())])]))
+    return out
+
+
+def unparsable_versions(rng, secs, everything):
+    out = [('unparsable/' + lab, s) for lab, must, s in L.corruptions(rng, {'sections': secs}, per_class=(3 if everything else 1), everything=everything) if must]
+    out += format_corruptions(rng, secs, everything)
+    out += syntax_corruptions(rng, secs)
+    return out
+
+
 def mutations(rng, cfg, everything):
     secs = cfg['sections']
     prog = [i for i, (s, _) in enumerate(secs) if s.split(':')[0] in ('program', 'eventlistener', 'fcgi-program')]
@@ -149,6 +301,58 @@ def mutations(rng, cfg, everything):
     if prog:
         out.append(('unparsable', setopt(prog[0], 'startsecs', 'soon')))
     out.append(('unparsable-no-supervisord', [s for s in secs if s[0] != 'supervisord']))
+    # every other class of unparsable file (a sample; unparsable_population() takes all of them over small files)
+    out.extend(rng_pick(rng, unparsable_versions(rng, secs, False), 24 if everything else 4))
+    # path-valued options given relative to the working directory (which differs between the first parse and a reread)
+    for si in (prog if everything else rng_pick(rng, prog, 1)):
+        for k, vals in sorted(REL_VALUES.items()):
+            out.append(('option-relative:' + k, setopt(si, k, rng.choice(vals))))
+    return out
+
+
+REL_VALUES = {
+    'stdout_logfile': ['web.log', 'logs/web.log', './web.log', 'logs/../web.log', 'run.d/%(program_name)s.out'],
+    'stderr_logfile': ['web.err', 'logs/web.err', './logs/web.err', 'rel/%(program_name)s.err'],
+    'directory': ['rel', '.', 'rel/..', './run.d'],
+    'command': ['bin/run --fg', './run.sh', '../bin/tool -x', 'rel/run %(process_num)d'],
+}
+
+
+def relativise(rng, secs, sup=False, rundir=None, p=0.75):
+    """the same file with the path-valued options of its programs given relative to the working directory; sup: so are the
+    [supervisord] options that name files, and directory= names the directory daemonize() changes to"""
+    out = []
+    for sname, opts in secs:
+        kind = sname.split(':')[0]
+        if kind in ('program', 'eventlistener', 'fcgi-program'):
+            d = dict(opts)
+            for k, vals in sorted(REL_VALUES.items()):
+                if rng.random() < p:
+                    d[k] = rng.choice(vals)
+            opts = [(k, d[k]) for k, _ in opts if k in d] + [(k, v) for k, v in sorted(d.items()) if k not in dict(opts)]
+        elif kind == 'supervisord' and sup:
+            d = dict(opts)
+            d.update(directory=rundir, childlogdir='logs', logfile=rng.choice(['logs/supervisord.log', 'supervisord.log']), pidfile=rng.choice(['sup.pid', 'run.d/sup.pid']))
+            opts = sorted(d.items())
+        out.append((sname, opts))
+    return out
+
+
+def relative_mutations(rng, secs):
+    """[(label, sections)]: one relative path of one section is spelt differently, made absolute, or dropped"""
+    out = []
+    for si, (sname, opts) in enumerate(secs):
+        if sname.split(':')[0] not in ('program', 'eventlistener', 'fcgi-program'):
+            continue
+        d = dict(opts)
+        for k, vals in sorted(REL_VALUES.items()):
+            def setv(v):
+                s2 = list(secs); s2[si] = (sname, [(a, b) for a, b in opts if a != k] + ([(k, v)] if v is not None else [])); return s2
+            others = [v for v in vals if v != d.get(k)]
+            out.append(('path-other-relative:' + k, setv(rng.choice(others))))
+            out.append(('path-absolute:' + k, setv('/tmp/' + rng.choice(vals).replace('../', '').replace('./', ''))))
+            if k in d and k != 'command':
+                out.append(('path-dropped:' + k, setv(None)))
     return out
 
 
@@ -313,6 +517,56 @@ def attr_base(rng, scratch, fcgi=True):
     return [('supervisord', [])] + secs
 
 
+NUMERIC_CONV = set('diouxXeEfFgGc')
+
+
+def certain_format_error(v):
+    """does `v % <dict>` certainly fail at an UNKEYED numeric conversion (`+%d`, `%x`, `%c` ...: a TypeError whatever the
+    dict holds), everything in front of it being in the model's subset?  The model rejects the value at the same place."""
+    i, n = 0, len(v)
+    while i < n:
+        if v[i] != '%':
+            i += 1; continue
+        i += 1
+        if i >= n:
+            return False
+        c = v[i]
+        if c == '%':
+            i += 1; continue
+        if c != '(':
+            return c in NUMERIC_CONV
+        depth, i = 1, i + 1
+        while i < n and depth:
+            depth += {'(': 1, ')': -1}.get(v[i], 0)
+            i += 1
+        while i < n and v[i] in '0123456789':
+            i += 1
+        if i >= n or v[i] not in 'sd':
+            return False
+        i += 1
+    return False
+
+
+class _SubsetView:
+    """the parser as C14.in_model_subset reads it, a value that certainly fails in expand() replaced by '%' (which does too)"""
+    def __init__(self, parser):
+        self.p = parser
+    def sections(self):
+        return self.p.sections()
+    def has_option(self, s, o):
+        return self.p.has_option(s, o)
+    def items(self, s):
+        prog = s.split(':')[0] in ('program', 'eventlistener', 'fcgi-program')
+        return [(k, '%' if prog and k in MODEL_EXPANDED and certain_format_error(v) else v) for k, v in self.p.items(s)]
+
+
+MODEL_EXPANDED = set(L.EXPANDED_OPTS) | set(L.OPT_CLASS) | {'user', 'serverurl', 'events', 'buffer_size', 'result_handler', 'socket', 'socket_backlog', 'socket_mode'}
+
+
+def in_subset(parser):
+    return C14.in_model_subset(_SubsetView(parser))
+
+
 class G:            # stand-in for a running process group: diff_to_active only reads .config
     def __init__(self, config):
         self.config = config
@@ -394,7 +648,8 @@ class Proxy:
         # the proxies of one file pair stand for the same daemon state and the same file: the real interface is asked by
         # the first of them, the others are handed a copy of its answer (the histories go through the real one every time)
         if 'answer' not in self.cache:
-            self.cache['answer'] = self.rpc.reloadConfig()
+            with at_cwd(self.cache.get('cwd')):
+                self.cache['answer'] = self.rpc.reloadConfig()
             self.cache['file_names'] = [g.name for g in self.rpc.supervisord.options.process_group_configs]
         self.file_names = list(self.cache['file_names'])
         return copy.deepcopy(self.cache['answer'])
@@ -436,18 +691,24 @@ def names(l):
     return ','.join(L.hx(n) for n in l) or '-'
 
 
-def one_pair(ctx, st, cfg, label, newsecs, tag):
+def one_pair(ctx, st, cfg, label, newsecs, tag, include=()):
     from supervisor.supervisord import Supervisor
     from supervisor.rpcinterface import SupervisorNamespaceRPCInterface
     from supervisor.xmlrpc import RPCError, Faults
+    from supervisor.compat import xmlrpclib
     from supervisor.supervisorctl import DefaultControllerPlugin
     inp = {'label': label, 'old': cfg['sections'], 'new': newsecs}
-    path = L.write_config({'sections': cfg['sections'], 'include': []}, ctx.scratch, tag)
+    if include:
+        inp['include'] = list(include)
+    launch, rundir = cwd_dirs(ctx.scratch)
+    dirs = model_dirs(ctx.scratch)
+    path = write_version(cfg['sections'], ctx.scratch, tag, include)
     o = L.make_options(L.ENV_VARS)
-    a = L.parse_with(o, path, reread=True)
+    with at_cwd(launch):
+        a = L.parse_with(o, path, reread=True)
     if a.status != 'ok':
         ctx.count('old-file-rejected'); return
-    old_toks = L.model_tokens(a, L.known_dirs([ctx.scratch]))
+    old_toks = L.model_tokens(a, dirs)
     old_groups = list(o.process_group_configs)
     if len({g.name for g in old_groups}) != len(old_groups):
         ctx.count('skipped:duplicate-group-names'); return
@@ -456,38 +717,89 @@ def one_pair(ctx, st, cfg, label, newsecs, tag):
         sup.process_groups[g.name] = G(g)
     rpc = SupervisorNamespaceRPCInterface(sup)
     # the file changes
-    L.write_config({'sections': newsecs, 'include': []}, ctx.scratch, tag)
-    fresh = L.parse_with(L.make_options(L.ENV_VARS), path, reread=True)      # independent parse of the new file
+    write_version(newsecs, ctx.scratch, tag, include)
+    with at_cwd(launch):
+        fresh = L.parse_with(L.make_options(L.ENV_VARS), path, reread=True)      # independent parse of the new file, where the old one was parsed
     pre_env2 = dict(o.environ_expansions)
     st_cls = L._classes()
-    st_cls['RecParser'].instances.clear()
-    st_cls['so'].UnhosedConfigParser = st_cls['RecParser']
-    before_cfgs = list(o.process_group_configs)
-    try:
+
+    def reread():
+        """-> (result or None, answer text); the daemon has changed its working directory since it started"""
+        st_cls['RecParser'].instances.clear()
+        o.include_done = False
+        st_cls['so'].UnhosedConfigParser = st_cls['RecParser']
         try:
-            res = rpc.reloadConfig()[0]
-            impl_diff = 'added=%s changed=%s removed=%s' % tuple(names(x) for x in res)
-        except RPCError as e:
-            res = None
-            impl_diff = 'CANT_REREAD' if e.code == Faults.CANT_REREAD else 'fault %s' % e.code
-        except Exception as e:
-            res = None
-            impl_diff = 'exc ' + type(e).__name__
-    finally:
-        st_cls['so'].UnhosedConfigParser = st_cls['real_parser']
+            try:
+                r = rpc.reloadConfig()[0]
+                return r, 'added=%s changed=%s removed=%s' % tuple(names(x) for x in r)
+            except RPCError as e:
+                return None, ('CANT_REREAD' if e.code == Faults.CANT_REREAD else 'fault %s' % e.code)
+            except Exception as e:
+                return None, 'exc ' + type(e).__name__
+        finally:
+            st_cls['so'].UnhosedConfigParser = st_cls['real_parser']
+
+    before_cfgs = list(o.process_group_configs)
+    with at_cwd(rundir):
+        res, impl_diff = reread()
+    inst = list(st_cls['RecParser'].instances) if o.include_done else []      # (no parser state for the model when the file broke below the option level)
+    after_cfgs = list(o.process_group_configs)
     ctx.count('mutation:' + label.split(':')[0].split('~')[0]); ctx.count('direction:reverse' if label.endswith('~rev') else 'direction:forward'); ctx.count('answer:' + impl_diff.split('=')[0].split(' ')[0])
+    cwd_memo = {}
+
+    def chdir_suffix():
+        """':after-chdir' when the answer is another one in the directory the daemon was started in (asked afterwards,
+        when everything else has been judged: a reread changes nothing but the configuration last read)"""
+        if 'v' not in cwd_memo:
+            with at_cwd(launch):
+                r2, d2 = reread()
+            cwd_memo['v'] = ':after-chdir' if d2 != impl_diff else ''
+            with at_cwd(rundir):
+                reread()
+        return cwd_memo['v']
     # ---- monitors ---------------------------------------------------------------------------------------
     oldg = {g.name: g for g in old_groups}
     newg = {g.name: g for g in fresh.options.process_group_configs} if fresh.status == 'ok' else {}
     if [g.config for g in sup.process_groups.values()] != old_groups:
         ctx.violation('reread-touched-active-groups', 'the group table changed during reloadConfig', inp)
     if fresh.status != 'ok':
+        ctx.count('unparsable-class:' + (label.split(':')[0] if label.startswith('unparsable') else 'other'))
+        ctx.count('unparsable-rejected-with:' + fresh.status)
         if impl_diff != 'CANT_REREAD':
-            ctx.violation('unparsable-file-not-CANT_REREAD', 'answer %s for a file rejected with: %s' % (impl_diff, fresh.message[:120]), inp)
-        if list(o.process_group_configs) != before_cfgs or any(x is not y for x, y in zip(o.process_group_configs, before_cfgs)):
+            how = impl_diff[4:] if impl_diff.startswith('exc ') else (impl_diff.replace(' ', '-') if res is None else 'accepted')
+            ctx.violation('unparsable-file-not-CANT_REREAD:' + how, 'answer %s for a file rejected with %s: %s' % (impl_diff, fresh.status, fresh.message[:160]), inp)
+        if after_cfgs != before_cfgs or any(x is not y for x, y in zip(after_cfgs, before_cfgs)):
             ctx.violation('cant-reread-changed-configuration', 'process_group_configs changed although the file could not be read', inp)
+        # the same through supervisorctl: reread prints the refusal, update gives up before touching anything
+        class FaultProxy(Proxy):
+            def reloadConfig(self):
+                self.calls.append('reloadConfig')
+                try:
+                    with at_cwd(rundir):
+                        return self.rpc.reloadConfig()
+                except RPCError as e:                       # what the XML-RPC layer does with an RPCError
+                    raise xmlrpclib.Fault(e.code, e.text)
+        for cmd in ('reread', 'update'):
+            px = FaultProxy(rpc, [g.name for g in old_groups]); ctl = Ctl(px)
+            out = 'returned'
+            try:
+                getattr(DefaultControllerPlugin(ctl), 'do_' + cmd)('')
+            except xmlrpclib.Fault as e:
+                out = 'fault %s' % ('CANT_REREAD' if e.faultCode == Faults.CANT_REREAD else e.faultCode)
+            except Exception as e:
+                out = 'exc ' + type(e).__name__
+            printed = ctl.stdout.getvalue()
+            ctx.count('supervisorctl-%s-unparsable:%s' % (cmd, out.replace(' ', '-')))
+            ok = ((cmd == 'reread' and out == 'returned' and 'ERROR: CANT_REREAD' in printed) or (cmd == 'update' and out == 'fault CANT_REREAD')) and ctl.exitstatus != 0
+            if not ok:
+                ctx.violation('unparsable-file-not-CANT_REREAD:supervisorctl-%s:%s' % (cmd, out[4:] if out.startswith('exc ') else out.replace(' ', '-')),
+                              'supervisorctl %s with an unparsable file (%s: %s): %s, exit status %s, printed %r' % (cmd, fresh.status, fresh.message[:100], out, ctl.exitstatus, printed[:200]), inp)
+            if px.calls != ['reloadConfig'] or px.active != [g.name for g in old_groups]:
+                ctx.violation('cant-reread-changed-something:supervisorctl-' + cmd, 'calls %r' % (px.calls,), inp)
+            if list(o.process_group_configs) != before_cfgs or [g.config for g in sup.process_groups.values()] != old_groups:
+                ctx.violation('cant-reread-changed-configuration', 'after supervisorctl %s: the configuration last read or the group table changed' % cmd, inp)
     elif res is None:
-        ctx.violation('parsable-file-not-reread', 'answer %s' % impl_diff, inp)
+        ctx.violation('parsable-file-not-reread' + chdir_suffix(), 'answer %s' % impl_diff, inp)
     else:
         newg = {g.name: g for g in fresh.options.process_group_configs}
         oldg = {g.name: g for g in old_groups}
@@ -501,9 +813,9 @@ def one_pair(ctx, st, cfg, label, newsecs, tag):
             for n in respelt:
                 ctx.count('events-respelt:' + ('listed' if n in res[1] else 'not-listed'))
             if sorted(res[0]) != sorted(want_added):
-                ctx.violation('added-not-exact', 'added %r, expected %r' % (res[0], want_added), inp)
+                ctx.violation('added-not-exact' + chdir_suffix(), 'added %r, expected %r' % (res[0], want_added), inp)
             if sorted(res[2]) != sorted(want_removed):
-                ctx.violation('removed-not-exact', 'removed %r, expected %r' % (res[2], want_removed), inp)
+                ctx.violation('removed-not-exact' + chdir_suffix(), 'removed %r, expected %r' % (res[2], want_removed), inp)
             if sorted(set(res[1]) - respelt) != sorted(want_changed) or len(set(res[1])) != len(res[1]):
                 missed = sorted(set(want_changed) - set(res[1])); extra = sorted(set(res[1]) - set(want_changed) - respelt)
                 kind = 'changed-not-reported'
@@ -513,10 +825,16 @@ def one_pair(ctx, st, cfg, label, newsecs, tag):
                     kind = 'changed-not-reported:fcgi-socket-backlog-mode-owner'
                 elif extra and not missed:
                     kind = 'unchanged-reported-as-changed'
-                ctx.violation(kind, 'changed %r, but the groups whose options differ are %r (differing options: %r)' % (
+                ctx.violation(kind + chdir_suffix(), 'changed %r, but the groups whose options differ are %r (differing options: %r)' % (
                     res[1], want_changed, {n: diffs[n][:6] for n in missed + extra}), inp)
-            if label == 'unchanged' and (res[0] or res[1] or res[2]):
-                ctx.violation('unchanged-file-reports-difference', impl_diff, inp)
+            if label.split('~')[0] in ('unchanged', 'relative/unchanged') and (res[0] or res[1] or res[2]):
+                ctx.violation('unchanged-file-reports-difference' + chdir_suffix(), impl_diff, inp)
+            if not (res[0] or res[1] or res[2]):
+                # nothing reported: it stays that way however often the daemon is asked
+                with at_cwd(rundir):
+                    r2, d2 = reread()
+                if d2 != impl_diff:
+                    ctx.violation('repeated-reread-answers-differ', 'first %s, then %s' % (impl_diff, d2), inp)
             if set(res[0]) & set(res[1]) or set(res[2]) & (set(res[0]) | set(res[1])):
                 ctx.violation('diff-not-disjoint', impl_diff, inp)
     # ---- supervisorctl update over the same daemon state --------------------------------------------------
@@ -524,10 +842,10 @@ def one_pair(ctx, st, cfg, label, newsecs, tag):
     if res is not None:
         allnames = sorted(set(res[0]) | set(res[1]) | set(res[2]) | set(oldg))
         argsets = [[]] + [[n] for n in rng_sample(ctx, allnames, 2)] + ([['all']] if allnames else [])
-        cache = {}
+        cache = {'cwd': rundir}
         if label.startswith('attr/'):
             # (the same mutations also run as histories, where every update rereads through the real interface)
-            cache = {'answer': copy.deepcopy([res]), 'file_names': [g.name for g in o.process_group_configs]}
+            cache = {'cwd': rundir, 'answer': copy.deepcopy([res]), 'file_names': [g.name for g in o.process_group_configs]}
         for args in argsets:
             px = Proxy(rpc, [g.name for g in old_groups], cache=cache)
             ctl = Ctl(px)
@@ -579,16 +897,15 @@ def one_pair(ctx, st, cfg, label, newsecs, tag):
             if ctl.exitstatus == 0:
                 ctx.violation('update-failure-not-reported', 'exit status 0 although the stop of %r failed' % (fl,), inp)
     # ---- correspondence ---------------------------------------------------------------------------------
-    inst = st_cls['RecParser'].instances
     ctx.case_done((label, repr(cfg['sections']), repr(newsecs)), label != 'unchanged')
-    if not inst or old_toks is None or not C14.in_model_subset(a.parser) or not C14.in_model_subset(inst[0]):
+    if not inst or old_toks is None or not in_subset(a.parser) or not in_subset(inst[0]):
         ctx.count('not-modelled'); ctx.count('not-modelled:' + {'a': 'attribute-files', 'p': 'random-files', 'n': 'search'}.get(tag, 'corpus')); return
     if any(label.startswith(x) for x in ('unparsable-no',)) and False:
         return
     if res is not None and fresh.status == 'ok' and any(only_event_order(oldg[n], newg[n]) for n in newg if n in oldg):
         ctx.count('not-modelled:events-hash-order'); return      # the model compares the subscriptions as a set
     fake = L.Outcome(); fake.parser, fake.include_done, fake.pre_env, fake.here = inst[0], True, pre_env2, o.here
-    new_toks = L.model_tokens(fake, L.known_dirs([ctx.scratch]))
+    new_toks = L.model_tokens(fake, dirs)
     st['cases'].append(('case reread ' + ' '.join(old_toks) + ' -- ' + ' '.join(new_toks), ops))
     st['impls'].append(lines)
     st.setdefault('origin', {})[st['cases'][-1][0]] = [(cfg['sections'], newsecs)]
@@ -621,7 +938,13 @@ def toggle_logfile(secs, si, rng):
 def gen_history(rng, scratch):
     cfg = L.gen_config(rng, scratch, small=True)
     secs = cap_numprocs([s for s in cfg['sections'] if not s[0].startswith('fcgi-program:')], 13)
+    if rng.random() < 0.3:
+        secs = relativise(rng, secs, p=0.5)
     steps = []
+    if rng.random() < 0.3:          # the file the daemon started with, untouched
+        steps.extend([('reread',)] * rng.choice([1, 2]))
+        if rng.random() < 0.5:
+            steps.append(('update', []))
     def homog(secs):
         grouped = {p.strip() for s, o in secs if s.startswith('group:') for p in dict(o).get('programs', '').split(',')}
         return [(i, s.split(':', 1)[1]) for i, (s, _) in enumerate(secs)
@@ -693,12 +1016,14 @@ def run_history(ctx, st, secs0, steps, tag='h'):
     from supervisor.supervisorctl import DefaultControllerPlugin
     from supervisor import events
     inp = {'history': True, 'start': secs0, 'steps': [list(x) for x in steps]}
-    dirs = L.known_dirs([ctx.scratch])
+    dirs = model_dirs(ctx.scratch)
+    launch, rundir = cwd_dirs(ctx.scratch)
     events.clear()
-    path = L.write_config({'sections': secs0, 'include': []}, ctx.scratch, tag)
+    path = write_version(secs0, ctx.scratch, tag)
     o = L.make_options(L.ENV_VARS)
     o.configfile = path
-    (kind, r0), toks0, p0 = L.capture_tokens(o, lambda: o.process_config(do_usage=False), dirs)
+    with at_cwd(launch):             # the daemon starts here ...
+        (kind, r0), toks0, p0 = L.capture_tokens(o, lambda: o.process_config(do_usage=False), dirs)
     if kind != 'ok' or toks0 is None:
         ctx.count('history:start-rejected'); return
     if len({g.name for g in o.process_group_configs}) != len(o.process_group_configs):
@@ -707,7 +1032,11 @@ def run_history(ctx, st, secs0, steps, tag='h'):
     for g in o.process_group_configs:
         sup.add_process_group(g)
     rpc = SupervisorNamespaceRPCInterface(sup)
-    modelled = C14.in_model_subset(p0)
+
+    def rpc_reload():                # ... and has changed to [supervisord] directory= by the time anybody asks it to reread
+        with at_cwd(rundir):
+            return rpc.reloadConfig()
+    modelled = in_subset(p0)
     ops, lines = [], []
     synced = True       # options.process_group_configs was read from the file now on disk
     fault_names = {Faults.BAD_NAME: 'BAD_NAME', Faults.ALREADY_ADDED: 'ALREADY_ADDED', Faults.STILL_RUNNING: 'STILL_RUNNING',
@@ -722,9 +1051,25 @@ def run_history(ctx, st, secs0, steps, tag='h'):
     def fresh():
         """independent parse of the file now on disk (one per written version)"""
         if 'f' not in fresh_cache:
-            f = L.parse_with(L.make_options(L.ENV_VARS), path, reread=True)
+            with at_cwd(launch):
+                f = L.parse_with(L.make_options(L.ENV_VARS), path, reread=True)
             fresh_cache['f'] = f if f.status == 'ok' else None
+            fresh_cache['status'] = f.status
         return fresh_cache['f']
+
+    def table():
+        return ([id(g) for g in o.process_group_configs], [(n, id(g), id(g.config)) for n, g in sup.process_groups.items()])
+
+    def check_unparsable(where, ans, before):
+        """the file on disk cannot be parsed: answered with CANT_REREAD, every active group and option left as it was"""
+        if fresh() is not None:
+            return
+        ctx.count('history:unparsable-' + where)
+        if ans != 'CANT_REREAD':
+            ctx.violation('unparsable-file-not-CANT_REREAD:' + (ans[4:] if ans.startswith('exc ') else ans.replace(' ', '-').split('=')[0]),
+                          '%s answered %s for a file rejected with %s' % (where, ans, fresh_cache.get('status')), inp)
+        if table() != before:
+            ctx.violation('cant-reread-changed-configuration', '%s: the configuration last read or the group table changed although the file could not be read' % where, inp)
 
     def check_file_list(where):
         f = fresh()
@@ -734,6 +1079,14 @@ def run_history(ctx, st, secs0, steps, tag='h'):
         got = o.process_group_configs
         if [g.name for g in got] != [g.name for g in want] or any(exact_differs(x, y) for x, y in zip(got, want)):
             bad = [y.name for x, y in zip(got, want) if x.name == y.name and exact_differs(x, y)]
+            with at_cwd(rundir):
+                f2 = L.parse_with(L.make_options(L.ENV_VARS), path, reread=True)
+            if f2.status == 'ok' and [g.name for g in got] == [g.name for g in f2.options.process_group_configs] and \
+                    not any(exact_differs(x, y) for x, y in zip(got, f2.options.process_group_configs)):
+                ctx.violation('parsed-options-depend-on-working-directory',
+                              '%s: the groups %r read in the directory the daemon changed to differ from the same file read where it was started: %s / %s' % (
+                                  where, bad, ' '.join(cfg_digest(x)[:200] for x in got if x.name in bad), ' '.join(cfg_digest(y)[:200] for y in want if y.name in bad)), inp)
+                return
             ctx.violation('config-list-stale-after-reread',
                           '%s: options.process_group_configs is not the file on disk (groups with other options: %r; names %r vs file %r)' % (
                               where, bad, [g.name for g in got], [g.name for g in want]), inp)
@@ -770,7 +1123,7 @@ def run_history(ctx, st, secs0, steps, tag='h'):
         def __init__(self):
             self.calls, self.added_now, self.toks, self.parser, self.hash_order = [], set(), None, None, False
         def reloadConfig(self):
-            (k, r), self.toks, self.parser = L.capture_tokens(o, rpc.reloadConfig, dirs)
+            (k, r), self.toks, self.parser = L.capture_tokens(o, rpc_reload, dirs)
             if k == 'ok' and hash_order_listed(r):
                 self.hash_order = True
             if k == 'exc':
@@ -792,18 +1145,22 @@ def run_history(ctx, st, secs0, steps, tag='h'):
         def addProcessGroup(self, n):
             self.calls.append('add:' + n); self.added_now.add(n); return self._rpc(rpc.addProcessGroup, n)
 
-    converged = False   # the last operation was a successful unrestricted update and the file has not changed since
+    # the active groups are those of the file with the file's options and the file has not changed since: at the start,
+    # and after a successful unrestricted update
+    converged = True
+    after_update = False
     for step in steps:
         if step[0] == 'write':
-            L.write_config({'sections': step[1], 'include': []}, ctx.scratch, tag)
+            write_version(step[1], ctx.scratch, tag)
             fresh_cache.clear()
             synced = False
             converged = False
             continue
         ctx.count('history-op:' + step[0])
         was_converged, converged = converged, False
+        before = table()
         if step[0] == 'reread':
-            (k, r), toks, prs = L.capture_tokens(o, rpc.reloadConfig, dirs)
+            (k, r), toks, prs = L.capture_tokens(o, rpc_reload, dirs)
             if k == 'ok':
                 ans = 'added=%s changed=%s removed=%s' % tuple(names(x) for x in r[0])
                 synced = True
@@ -811,14 +1168,27 @@ def run_history(ctx, st, secs0, steps, tag='h'):
                 if hash_order_listed(r):
                     ctx.count('history:events-hash-order'); modelled = False
                 elif was_converged and (r[0][0] or r[0][1] or r[0][2]):
-                    ctx.violation('reread-after-update-reports-difference', 'update converged and the file did not change, yet reread answers %s' % ans, inp)
+                    # is it the working directory?  (asked where the daemon was started; a reread changes nothing but the list last read)
+                    with at_cwd(launch):
+                        try:
+                            r2 = rpc.reloadConfig()
+                        except Exception:
+                            r2 = None
+                    rpc_reload()
+                    sfx = ':after-chdir' if r2 is not None and not (r2[0][0] or r2[0][1] or r2[0][2]) else ''
+                    if after_update:
+                        ctx.violation('reread-after-update-reports-difference' + sfx, 'update converged and the file did not change, yet reread answers %s' % ans, inp)
+                    else:
+                        ctx.violation('unchanged-file-reports-difference' + sfx, 'the file is the one the daemon started with, yet reread answers %s' % ans, inp)
                 converged = was_converged
             elif isinstance(r, RPCError):
                 ans = fault_names.get(r.code, 'fault %s' % r.code)
             else:
                 ans = 'exc ' + type(r).__name__
-                ctx.violation('reread-raised:' + type(r).__name__, str(r)[:160], inp)
-            if toks is None or not C14.in_model_subset(prs):
+                if fresh() is not None:
+                    ctx.violation('reread-raised:' + type(r).__name__, str(r)[:160], inp)
+            check_unparsable('reread', ans, before)
+            if toks is None or not in_subset(prs):
                 modelled = False
             else:
                 ops.append('reread T ' + ' '.join(toks))
@@ -835,7 +1205,9 @@ def run_history(ctx, st, secs0, steps, tag='h'):
                     ctx.violation('update-aborted:Fault', 'update %r: %s after %r' % (step[1], e, px.calls), inp)
             except Exception as e:
                 ans = 'exc ' + type(e).__name__
-                ctx.violation('update-aborted:' + type(e).__name__, 'update %r: %s after %r' % (step[1], str(e)[:120], px.calls), inp)
+                if fresh() is not None:
+                    ctx.violation('update-aborted:' + type(e).__name__, 'update %r: %s after %r' % (step[1], str(e)[:120], px.calls), inp)
+            check_unparsable('update', ans, before)
             if ans == 'ok':
                 check_file_list('after update')
                 f = fresh()
@@ -854,10 +1226,10 @@ def run_history(ctx, st, secs0, steps, tag='h'):
                             ctx.violation('update-does-not-converge', 'after update %s still differs from the file in %r' % (n, differing(active[n], want[n])[:6]), inp)
                     if unrestricted:
                         check_subscriptions('after update %r' % (step[1],), want)
-                        converged = True
+                        converged = after_update = True
             if px.hash_order:
                 ctx.count('history:events-hash-order'); modelled = False
-            if px.toks is None or not C14.in_model_subset(px.parser):
+            if px.toks is None or not in_subset(px.parser):
                 modelled = False
             else:
                 ops.append('update %s T %s' % (','.join(L.hx(x) for x in step[1]) or '-', ' '.join(px.toks)))
@@ -980,6 +1352,90 @@ def attr_population(ctx, st, rng, nbases, per_base_histories):
                 return
 
 
+_STAMP = [_SUP, ('program:stamp', [('command', '/bin/date +%%d'), ('autostart', 'false')]), ('program:web', [('command', '/bin/cat')])]
+
+
+def _stamp(cmd, *extra):
+    return [_SUP, ('program:stamp', [('command', cmd), ('autostart', 'false')] + list(extra)), ('program:web', [('command', '/bin/cat')])]
+
+
+def _rel(web_log='web.log', lst_err='logs/listener.err'):
+    return [_SUP, ('program:web', [('command', 'bin/web --fg'), ('stdout_logfile', web_log), ('stderr_logfile', 'web.err'), ('directory', 'rel')]),
+            ('eventlistener:listener', [('command', './listener'), ('events', 'TICK_5'), ('stderr_logfile', lst_err)]),
+            ('program:abs', [('command', '/bin/abs'), ('stdout_logfile', '/tmp/abs.log'), ('stderr_logfile', 'AUTO')])]
+
+
+CORPUS += [
+    # seeded C15-7: a %-expression whose failure is a TypeError (the unescaped strftime percent, a numeric conversion of a
+    # string expansion) is a file that cannot be parsed like any other
+    ('unparsable/format-typeerror-strftime', _stamp('/bin/date +%%d'), _stamp('/bin/date +%d')),
+    ('unparsable/format-typeerror-keyed', _stamp('/bin/date'), _stamp('/bin/date', ('process_name', '%(program_name)d'))),
+    ('unparsable/format-typeerror-unkeyed', _stamp('/bin/date'), _stamp('/bin/date', ('environment', 'STAMP="%c"'))),
+    ('unparsable/format-valueerror', _stamp('/bin/date'), _stamp('/bin/date +%Y')),
+    ('unparsable/format-typeerror-unkeyed', _stamp('/bin/date'), [('supervisord', [('identifier', 'sv%d')])] + _stamp('/bin/date')[1:]),
+    ('unparsable/format-typeerror-unkeyed', _pool('TICK_5'), _pool('TICK_5%x')),
+    # seeded C15-8: relative log file names; the daemon rereads in another directory than the one it started in
+    ('relative/unchanged', _rel(), _rel()),
+    ('relative/path-other-relative:stdout_logfile', _rel(), _rel(web_log='logs/web.log')),
+    ('relative/path-absolute:stderr_logfile', _rel(), _rel(lst_err='/tmp/listener.err')),
+]
+HISTORY_CORPUS += [
+    (_stamp('/bin/date +%%d'), [('reread',), ('write', _stamp('/bin/date +%d')), ('reread',), ('update', []), ('reread',), ('write', _stamp('/bin/date +%%e')), ('reread',), ('update', [])]),
+    (_rel(), [('reread',), ('reread',), ('update', []), ('reread',), ('write', _rel(web_log='logs/web.log')), ('reread',), ('update', []), ('reread',)]),
+]
+
+
+def unparsable_population(ctx, st, rng, nbases, nfull, per_base_histories):
+    """every class of file that cannot be parsed, over small files holding every group kind: as file pairs (answer of
+    reloadConfig, of supervisorctl reread and update; nothing changed) and a sample as histories (unparsable version,
+    reread, update, then a parsable version again)"""
+    for b in range(nbases):
+        base = attr_base(rng, ctx.scratch)
+        if b % 2:
+            base = relativise(rng, base, p=0.4)
+        for label, bad in unparsable_versions(rng, base, everything=(b < nfull)):
+            one_pair(ctx, st, {'sections': base}, label, bad, 'u')
+            if _done(ctx):
+                return
+        hbase = [x for x in base if not x[0].startswith('fcgi-program:')]
+        vers = unparsable_versions(rng, hbase, False)
+        good = attr_mutations(rng, hbase)
+        for label, bad in rng_pick(rng, vers, per_base_histories):
+            ctx.count('history-mutation:' + label.split(':')[0])
+            run_history(ctx, st, hbase, [('write', bad), ('reread',), ('update', []), ('reread',), ('write', rng.choice(good)[1]), ('reread',), ('update', [])], 'h')
+            if _done(ctx):
+                return
+
+
+def relpath_population(ctx, st, rng, nbases, per_base):
+    """relative paths in every path-valued option x a reread in another working directory than the first parse: the
+    unchanged file (also spread over an included file), single changes of a path or of any group attribute in both
+    directions, and histories reread / reread / update / reread / change / reread / update / reread"""
+    launch, rundir = cwd_dirs(ctx.scratch)
+    for b in range(nbases):
+        base = relativise(rng, attr_base(rng, ctx.scratch), sup=(b % 3 == 1), rundir=rundir)
+        inc = ()
+        if b % 3 == 2:
+            cand = [i for i, (sn, _) in enumerate(base) if sn != 'supervisord']
+            inc = sorted(rng.sample(cand, rng.randrange(1, len(cand))))
+        one_pair(ctx, st, {'sections': base}, 'relative/unchanged', base, 'a', include=inc)
+        sh = list(base); rng.shuffle(sh)
+        one_pair(ctx, st, {'sections': base}, 'relative/sections-reordered', sh, 'a')
+        muts = relative_mutations(rng, base)
+        for label, new in rng_pick(rng, muts, per_base) + rng_pick(rng, attr_mutations(rng, base), per_base):
+            one_pair(ctx, st, {'sections': base}, 'relative/' + label, new, 'a')
+            one_pair(ctx, st, {'sections': new}, 'relative/' + label + '~rev', base, 'a')
+            if _done(ctx):
+                return
+        hbase = [x for x in base if not x[0].startswith('fcgi-program:')]
+        hm = relative_mutations(rng, hbase) + attr_mutations(rng, hbase)
+        for label, new in rng_pick(rng, hm, max(2, per_base // 2)):
+            ctx.count('history-mutation:relative/' + label.split(':')[0])
+            run_history(ctx, st, hbase, [('reread',), ('reread',), ('update', []), ('reread',), ('write', new)] + _UPD + [('update', ['all']), ('reread',)], 'h')
+            if _done(ctx):
+                return
+
+
 class Background:
     """the model side of ctx.correspond, run over chunks of the cases in worker threads (the driver is a subprocess, so
     the chunks run in parallel with each other and with the implementation side); wait() then compares chunk by chunk
@@ -1029,6 +1485,8 @@ def run(ctx):
     for secs0, steps in HISTORY_CORPUS:
         run_history(ctx, st, secs0, steps)
     attr_population(ctx, st, rng, ctx.n(2, 16), 30 if ctx.tier == 'quick' else 60)
+    unparsable_population(ctx, st, rng, ctx.n(3, 12), 0 if ctx.tier == 'quick' else 2, 6)
+    relpath_population(ctx, st, rng, ctx.n(3, 18), 8)
     for i in range(ctx.n(8, 80)):
         cfg = L.gen_config(rng, ctx.scratch, small=True)
         cfg['include'] = []
@@ -1086,6 +1544,12 @@ def search(ctx):
                     if _done(ctx):
                         return
     attr_population(ctx, st, rng, 3 if ctx.tier == 'quick' else 12, 20 if ctx.tier == 'quick' else 40)
+    if _done(ctx):
+        return
+    unparsable_population(ctx, st, rng, 3 if ctx.tier == 'quick' else 10, 0 if ctx.tier == 'quick' else 2, 6)
+    if _done(ctx):
+        return
+    relpath_population(ctx, st, rng, 3 if ctx.tier == 'quick' else 12, 8)
     if _done(ctx):
         return
     for i in range(3 if ctx.tier == 'quick' else 20):
